@@ -291,6 +291,20 @@ class TypedNode(Node):
             if data_id and data_id != source_node._data_id:
                 raise UniqueConstraintError(f"data_id conflict: {source_node}")
 
+
+        # Validate `before` first, so a refused call does not leave a
+        # registered, but unattached node behind
+        children = self._children
+        if isinstance(before, Node):
+            if before._parent is not self:
+                raise ValueError(
+                    f"`before=node` ({before._parent}) "
+                    f"must be a child of target node ({self})"
+                )
+        elif children is None:
+            assert before in (None, True, int, False)
+
+        if source_node is not None:
             # If creating an inherited node, use the parent class as constructor
             child_class = child.__class__
 
@@ -304,21 +318,14 @@ class TypedNode(Node):
         else:
             node = factory(kind, child, parent=self, data_id=data_id, node_id=node_id)
 
-        children = self._children
         if children is None:
-            assert before in (None, True, int, False)
             self._children = [node]
         elif before is True:  # prepend
             children.insert(0, node)
         elif isinstance(before, int):
             children.insert(before, node)
         elif before:
-            if before._parent is not self:
-                raise ValueError(
-                    f"`before=node` ({before._parent}) "
-                    f"must be a child of target node ({self})"
-                )
-            idx = children.index(before)  # raises ValueError
+            idx = before._index_in_parent()
             children.insert(idx, node)
         else:
             children.append(node)
